@@ -16,6 +16,7 @@ import PdfModel.Props.C11
 import PdfModel.Props.C14
 import PdfModel.Props.C17
 import PdfModel.Props.C19
+import PdfModel.Generated.Lexical
 
 /-!
 # C01 — reading arbitrary bytes never panics, aborts or hangs
@@ -699,5 +700,30 @@ def xrefStmSample : Buf :=
 example : (match XrefTable.readXrefAt textEnv (fun _ => .ok ⟨[1, 1, 1], [0, 2]⟩) (fun _ _ => .ok [0, 0, 255, 1, 16, 0]) false
       xrefStmSample 0 with
     | .ok (secs, _) => secs | _ => []) = [⟨0, [.free 0 255, .raw 16 0]⟩] := by decide +kernel
+
+end C01
+
+/-! ## Tie to the source: constants and byte classes (appended by the translator package)
+
+`Generated/Lexical.lean` is re-extracted from `pdf/src` by `./check` before this file is built. -/
+
+namespace C01
+
+/-- the lexical classes of the lexer model, the parser's nesting bound, the object-number bound and the bound on nested typed loads are the ones of the source (`is_whitespace`, `is_delimiter`, `MAX_DEPTH`, `MAX_ID`, `MAX_NESTED_GETS`) -/
+theorem constants_match_source :
+    ((List.range 256).filter (fun n => PdfLex.isWhitespace (UInt8.ofNat n)) = Generated.lexWhitespace) ∧
+    ((List.range 256).filter (fun n => PdfLex.isDelimiter (UInt8.ofNat n)) = Generated.lexDelimiters) ∧
+    ((List.range 256).filter (fun n => PdfLex.isRegular (UInt8.ofNat n)) =
+      (List.range 256).filter (fun n => !Generated.lexWhitespace.contains n && !Generated.lexDelimiters.contains n)) ∧
+    (PdfLex.maxDepth = Generated.parserMaxDepth) ∧
+    (Offsets.maxId = Generated.maxId) ∧
+    (TypedLoad.maxNest = Generated.maxNestedGets) := by
+  refine ⟨?_, ?_, ?_, ?_, ?_, ?_⟩
+  · decide +kernel
+  · decide +kernel
+  · decide +kernel
+  · decide +kernel
+  · decide +kernel
+  · decide +kernel
 
 end C01
